@@ -4,6 +4,8 @@ import Prs.Model.Tcr
 import Prs.Model.Cleaning
 import Prs.Model.Summary
 import Prs.Model.Purity
+import Prs.Model.Extra
+import Prs.Model.Merge
 open Lean
 namespace Prs.Drv
 
@@ -143,6 +145,27 @@ def opMisc (op : String) (j : Json) : Option (R Json) :=
         | none => pure none
         | some v => do pure (some (← v.getNat?))
       pure (jList (jOpt jNat) (labelsToColors labels mc shuffled palette))
+  | "density_scatter" => some do
+      let xs ← ratList j "x"
+      let ys ← ratList j "y"
+      pure (jList (fun p => Json.arr #[jRat p.1.1, jRat p.1.2, jNat p.2]) (densityScatterDiscrete (← bool j "sort") (xs.zip ys)))
+  | "multimerge" => some do
+      let cellOf : Json → R (Option (List Char)) := fun x => match x with
+        | .null => pure none
+        | .str v => pure (some v.toList)
+        | _ => throw "cell: string or null expected"
+      let tables ← (← arr j "tables").toList.mapM fun t => do
+        let cols ← strList t "cols"
+        let rows ← (← arr t "rows").toList.mapM fun r => match r with
+          | .arr #[.str k, .arr cells] => do pure (k.toList, ← cells.toList.mapM cellOf)
+          | _ => throw "row: [key, [cells]] expected"
+        pure ({ cols := cols, rows := rows } : KTable (List Char) (List Char))
+      let sfx ← match optField j "suffixes" with
+        | none => pure none
+        | some _ => do pure (some (← strList j "suffixes"))
+      let out := multimerge (← bool j "outer") sfx tables
+      pure (Json.mkObj [("cols", jList jStr out.cols),
+        ("rows", jList (fun r => Json.arr #[jStr r.1, jList (jOpt jStr) r.2]) out.rows)])
   | "split_matrix" => some do
       pure (jList (jList jInt) (splitMatrix (← intMatrix j "lower") (← intMatrix j "upper") (← natList j "ind")))
   | _ => none
